@@ -538,8 +538,8 @@ class Exec:
         st.pc += s.pc[n0:]        # type-invariant facts discovered while evaluating the spec
         return truthy(v)
 
-    def spec_value(self, text, st, env_extra=None):
-        ex = Exec(self.ctx); ex.spec_mode = True
+    def spec_value(self, text, st, env_extra=None, result=None):
+        ex = Exec(self.ctx); ex.spec_mode = True; ex.result = result
         s = st.fork()
         if env_extra is not None: s.env = dict(env_extra)
         v = ex.ev(ast.parse(text, mode='eval').body, s)
@@ -586,6 +586,7 @@ class Exec:
         elif isinstance(ty, TList): ok = isinstance(v, VList)
         elif isinstance(ty, TSet): ok = isinstance(v, VSet)
         elif isinstance(ty, TDict): ok = isinstance(v, VDict)
+        elif isinstance(ty, TExc): ok = isinstance(v, VFunc) and v.kind == 'excinst' 
         if not ok: raise ToolLimit('type mismatch: %s is %s, declared %r' % (what, type(v).__name__, ty))
 
     def apply_contract(self, c, args, kwargs, st, node):
@@ -1189,7 +1190,9 @@ def verify(contract, unroll=0, shard=(0, 1)):
     if sorted(argnames) != sorted(c.params) :
         raise ToolLimit('%s: parameters in source %s differ from the contract %s' % (c.name, argnames, list(c.params)))
     st.ghost['alloc'] = z3.Int('alloc0')
+    exc_params = [n for n in argnames if isinstance(c.params[n], TExc)]
     for n in argnames:
+        if n in exc_params: continue
         v = mk_sym(n, c.params[n]); st.env[n] = v; st.pc += wf(v)
         alloc_bound(st, v)
     for r in c.requires: st.assume(ex.spec_eval(r.text, st, st.env))
@@ -1205,7 +1208,16 @@ def verify(contract, unroll=0, shard=(0, 1)):
             ctx.observe.append((text, v))
         except ToolLimit as e:
             ctx.warnings.append('observe %r: %s' % (text, e))
-    outs = ex.block(node.body, st)
+    starts = [st]
+    for n in exc_params:
+        nxt = []
+        for s0 in starts:
+            for cls in c.params[n].names:
+                s1 = s0.fork(); s1.env[n] = VFunc('excinst', cls); s1.env['$exc'] = VFunc('excinst', cls)
+                s1.trace.append('%s is a %s' % (n, cls)); nxt.append(s1)
+        starts = nxt
+    outs = []
+    for s0 in starts: outs += ex.block(node.body, s0)
     if shard[0] != 0: ctx.obligations = []        # obligations raised along the way belong to shard 0
     for pi, o in enumerate(outs):
         if pi % shard[1] != shard[0]: continue
@@ -1223,6 +1235,12 @@ def verify(contract, unroll=0, shard=(0, 1)):
                 else:
                     penv[g] = Exec(ctx).ev(ast.parse(gexpr, mode='eval').body, gs)
             penv['$final'] = o.state.env
+            # ghost instrumentation stated in the contract (DESIGN 2.3): applied on normal exit, before the postconditions are read
+            for target, expr in c.ghost_update:
+                tv = ex.spec_value(expr, o.state, penv, res)
+                te = ast.parse(target, mode='eval').body
+                base = ex.spec_value(ast.unparse(te.value), ctx.entry.fork(), entry_env)
+                heap_set(o.state, base, te.attr, tv)
             for p in c.ensures:
                 ctx.oblige(o.state, 'ensures%s@path%d' % (p.label, pi), ex.spec_eval(p.text, o.state, penv, res), node, props=p.props, kind='ensures')
             for inv in c.invariant:
